@@ -66,6 +66,20 @@ RenderType(t) ==
       ELSE <<>>)
   \o (IF t.q = "" THEN <<>> ELSE <<t.q>>)
 
+\* the C++ spelling of a type expression as the generators must write it (DOCS.md: `T*` is a shared pointer, `T@` a raw
+\* pointer, `T&` a reference, const goes in front; the markers of template arguments are spelled at every depth)
+RECURSIVE SpellJoin(_, _)
+SpellJoin(ss, sep) == IF Len(ss) = 0 THEN "" ELSE IF Len(ss) = 1 THEN ss[1] ELSE ss[1] \o sep \o SpellJoin(Tail(ss), sep)
+RECURSIVE CppSpelling(_)
+CppSpelling(t) ==
+  LET core == SpellJoin(t.qn, "::")
+              \o (IF Len(t.args) > 0 THEN "<" \o SpellJoin([i \in 1..Len(t.args) |-> CppSpelling(t.args[i])], ", ") \o ">" ELSE "")
+      marked == CASE t.q = "*" -> "std::shared_ptr<" \o core \o ">"
+                  [] t.q = "@" -> core \o "*"
+                  [] t.q = "&" -> core \o "&"
+                  [] OTHER -> core
+  IN (IF t.const THEN "const " ELSE "") \o marked
+
 RECURSIVE TypeDepth(_)
 TypeDepth(t) == IF Len(t.args) = 0 THEN 0
                 ELSE 1 + (CHOOSE m \in 0..20 :
